@@ -710,4 +710,368 @@ theorem unclosed_triple_step (q : Nat) (hq : q = 34 ∨ q = 39) (s : Str) (line 
   rw [quote_dispatch .cif2 q hq, L.bind_ok hscan']
   simp [keyPeek, mkTok]
 
+/-! ### CIF_OVERLENGTH_LINE: the reports, where lines end — between tokens, in text fields, in triple-quoted strings -/
+
+/-- the over-length reports that the line terminators inside `units` cause, in order: one per terminated line that holds more
+    than 2048 characters, with that line's number (the column passed is the line's length) -/
+def longReps (line col : Nat) : Str → List Report
+  | [] => []
+  | c :: r =>
+    if c = 10 then
+      (if col > 2048 then ⟨CIF_OVERLENGTH_LINE, line, col⟩ :: longReps (line + 1) 0 r else longReps (line + 1) 0 r)
+    else longReps line (col + (if isTrailU c then 0 else 1)) r
+
+theorem longReps_append (a b : Str) : ∀ (line col : Nat),
+    longReps line col (a ++ b) = longReps line col a ++ longReps (posAfter line col a).1 (posAfter line col a).2 b := by
+  induction a with
+  | nil => intro line col; simp [longReps, posAfter]
+  | cons c a ih =>
+    intro line col
+    by_cases h : c = 10
+    · by_cases hc : col > 2048 <;> simp [longReps, posAfter, h, hc, ih]
+    · simp [longReps, posAfter, h, ih]
+
+theorem longReps_noeol (s : Str) (h : s.all (fun x => !isEol x) = true) : ∀ (line col : Nat), longReps line col s = [] := by
+  induction s with
+  | nil => intro line col; rfl
+  | cons c s ih =>
+    intro line col
+    simp only [List.all_cons, Bool.and_eq_true, Bool.not_eq_true'] at h
+    have hc : ¬ c = 10 := by simpa [isEol] using h.1
+    simp [longReps, hc, ih h.2]
+
+/-- no over-long line, no report -/
+theorem longReps_fit (s : Str) : ∀ (line col : Nat), linesFit col s = true → longReps line col s = [] := by
+  induction s with
+  | nil => intro line col _; rfl
+  | cons c s ih =>
+    intro line col h
+    by_cases hc : c = 10
+    · simp only [linesFit, hc, if_true, Bool.and_eq_true, decide_eq_true_eq] at h
+      have : ¬ col > 2048 := by omega
+      simp [longReps, hc, this, ih _ _ h.2]
+    · simp only [linesFit, hc, if_false] at h
+      simp [longReps, hc, ih _ _ h]
+
+/-- every one of these reports is a CIF_OVERLENGTH_LINE for a line that is longer than 2048 characters, not before `line` -/
+theorem longReps_mem (s : Str) : ∀ (line col : Nat) (r : Report), r ∈ longReps line col s →
+    r.code = CIF_OVERLENGTH_LINE ∧ r.col > 2048 ∧ line ≤ r.line := by
+  induction s with
+  | nil => intro line col r h; cases h
+  | cons c s ih =>
+    intro line col r h
+    by_cases hc : c = 10
+    · by_cases hl : col > 2048
+      · simp only [longReps, hc, if_true, hl, List.mem_cons] at h
+        rcases h with e | e
+        · subst e; exact ⟨rfl, hl, Nat.le_refl _⟩
+        · have := ih _ _ r e; exact ⟨this.1, this.2.1, by omega⟩
+      · simp only [longReps, hc, if_true, hl, if_false] at h
+        have := ih _ _ r h; exact ⟨this.1, this.2.1, by omega⟩
+    · simp only [longReps, hc, if_false] at h
+      exact ih _ _ r h
+
+theorem handleEol_lf_accept (line col sol : Nat) (hsol : sol % 4 ≠ 2) (log : List Report) :
+    handleEol line col sol 10 acceptAll log
+      = .ok (line + 1, 0, (sol * 4 + 1) % 16) (if col > 2048 then ⟨CIF_OVERLENGTH_LINE, line, col⟩ :: log else log) := by
+  have h2 : ¬ (sol * 4 + 1) % 16 = 9 := by omega
+  by_cases hc : col > 2048
+  · have : col > lineLength := hc
+    simp [handleEol, this, hc, h2, L.bind, report_accept]
+  · have : ¬ col > lineLength := hc
+    simp [handleEol, this, hc, h2]
+
+/-- a line terminator between tokens, whatever the length of the line it ends -/
+theorem tokLoop_lf_accept (dia : Dialect) (R : Str) (line col f : Nat) (aw : Bool) (log : List Report) (hf : R.length + 1 < f) :
+    tokLoop dia f aw ⟨10 :: R, line, col⟩ acceptAll log
+      = tokLoop dia (R.length + 1) true ⟨R, line + 1, 0⟩ acceptAll
+          (if col > 2048 then ⟨CIF_OVERLENGTH_LINE, line, col⟩ :: log else log) := by
+  cases f with
+  | zero => omega
+  | succ f =>
+    have hc : classOf dia 10 = .eol := by cases dia <;> decide
+    rw [tokLoop_wsrun dia f aw 10 R line col acceptAll log (Or.inr hc)]
+    have e : scanWs dia (10 :: R) line col 0 acceptAll log
+        = scanWs dia R (line + 1) 0 1 acceptAll (if col > 2048 then ⟨CIF_OVERLENGTH_LINE, line, col⟩ :: log else log) := by
+      have hne : ¬ (Cls.eol = Cls.ws) := by decide
+      simp only [scanWs, hc, hne, if_false, if_true, bind_eq]
+      rw [L.bind_ok (handleEol_lf_accept line col 0 (by decide) log)]
+    rw [e, scanWs_sol_congr dia R (line + 1) 0 1 0 acceptAll _ (by decide)]
+    exact (tokLoop_absorb dia R (line + 1) 0 (R.length + 1) f acceptAll _ (by omega) (by omega)).symm
+
+/-- **whitespace and comments with lines of any length**: the run is crossed as in `lex_sep_loop`; every line terminator in
+    it that ends a line of more than 2048 characters adds ONE report with that line's number, nothing else changes -/
+theorem lex_sep_accept (dia : Dialect) (R : Str) : ∀ (w : List WsAtom) (line col f : Nat) (aw : Bool) (log : List Report),
+    (∀ a ∈ w, a.ok dia = true) →
+    (aw = true ∨ ∀ b rest, w ≠ WsAtom.comment b :: rest) → (renderWs w ++ R).length < f →
+    tokLoop dia f aw ⟨renderWs w ++ R, line, col⟩ acceptAll log
+      = tokLoop dia (R.length + 1) (aw || !w.isEmpty) ⟨R, (posAfter line col (renderWs w)).1, (posAfter line col (renderWs w)).2⟩
+          acceptAll ((longReps line col (renderWs w)).reverse ++ log) := by
+  intro w
+  induction w with
+  | nil =>
+    intro line col f aw log _ _ hf
+    simp only [renderWs, List.map_nil, List.flatten_nil, List.nil_append, posAfter, List.isEmpty_nil, Bool.not_true, Bool.or_false,
+      longReps, List.reverse_nil] at hf ⊢
+    exact tokLoop_fuel dia acceptAll f (R.length + 1) aw _ log hf (by simp)
+  | cons a w ih =>
+    intro line col f aw log hok hfirst hf
+    have hokw : ∀ a' ∈ w, a'.ok dia = true := fun a' h => hok a' (List.mem_cons_of_mem _ h)
+    have hrender : renderWs (a :: w) = a.render ++ renderWs w := by simp [renderWs]
+    rw [hrender, posAfter_append, longReps_append]
+    simp only [List.isEmpty_cons, Bool.not_false, Bool.or_true, List.reverse_append, List.append_assoc]
+    have cont : ∀ (l c : Nat) (lg : List Report),
+        tokLoop dia ((renderWs w ++ R).length + 1) true ⟨renderWs w ++ R, l, c⟩ acceptAll lg
+          = tokLoop dia (R.length + 1) true ⟨R, (posAfter l c (renderWs w)).1, (posAfter l c (renderWs w)).2⟩ acceptAll
+              ((longReps l c (renderWs w)).reverse ++ lg) := by
+      intro l c lg
+      have := ih l c ((renderWs w ++ R).length + 1) true lg hokw (Or.inl rfl) (by omega)
+      simpa using this
+    cases a with
+    | blank x =>
+      have hx : isWs x = true := by
+        have := hok (.blank x) (List.mem_cons_self ..)
+        simp only [WsAtom.ok] at this
+        simp [isWs, this]
+      have h10 : x ≠ 10 := by
+        have := hok (.blank x) (List.mem_cons_self ..)
+        simp [WsAtom.ok, isBlank] at this
+        omega_cu
+      simp only [hrender, WsAtom.render, List.cons_append, List.nil_append, List.length_cons] at hf
+      simp only [WsAtom.render, List.cons_append, List.nil_append]
+      rw [tokLoop_ws1 dia x hx (renderWs w ++ R) line col f aw acceptAll log (by omega) (fun e => absurd e h10)]
+      have h10' : ¬ x = 10 := h10
+      have : longReps line col [x] = [] := by simp [longReps, h10']
+      rw [this, cont]
+      simp
+    | eol =>
+      simp only [hrender, WsAtom.render, List.cons_append, List.nil_append, List.length_cons] at hf
+      simp only [WsAtom.render, List.cons_append, List.nil_append]
+      rw [tokLoop_lf_accept dia (renderWs w ++ R) line col f aw log (by omega)]
+      have hp : posAfter line col [10] = (line + 1, 0) := by simp [posAfter]
+      rw [hp, cont]
+      by_cases hc : col > 2048 <;> simp [longReps, hc]
+    | comment body =>
+      have haw : aw = true := by
+        rcases hfirst with h | h
+        · exact h
+        · exact absurd rfl (h body w)
+      subst haw
+      have hb := hok (.comment body) (List.mem_cons_self ..)
+      simp only [WsAtom.ok, Bool.and_eq_true] at hb
+      have e : (WsAtom.comment body).render ++ (renderWs w ++ R) = 35 :: (body ++ 10 :: (renderWs w ++ R)) := by
+        simp [WsAtom.render]
+      rw [e]
+      simp only [hrender, List.append_assoc, e, List.length_cons, List.length_append] at hf
+      cases f with
+      | zero => omega
+      | succ f =>
+        rw [tokLoop_comment dia body (renderWs w ++ R) line col f acceptAll log hb.1 hb.2]
+        rw [tokLoop_lf_accept dia (renderWs w ++ R) line (col + 1 + colAdd body) f true log
+          (by simp only [List.length_append]; omega)]
+        have hpa : posAfter line col (WsAtom.comment body).render = (line + 1, 0) := by
+          simp only [WsAtom.render, posAfter, show ¬ (35 : Nat) = 10 from by decide, if_false,
+            show isTrailU 35 = false from by decide, Bool.false_eq_true]
+          rw [posAfter_append, posAfter_noeol body hb.2]
+          simp [posAfter]
+        have hlr : longReps line col (WsAtom.comment body).render
+            = (if col + 1 + colAdd body > 2048 then [⟨CIF_OVERLENGTH_LINE, line, col + 1 + colAdd body⟩] else []) := by
+          simp only [WsAtom.render, longReps, show ¬ (35 : Nat) = 10 from by decide, if_false,
+            show isTrailU 35 = false from by decide, Bool.false_eq_true]
+          rw [longReps_append, longReps_noeol body hb.2, posAfter_noeol body hb.2]
+          by_cases hc : col + 1 + colAdd body > 2048 <;> simp [longReps, hc]
+        rw [hpa, hlr, cont]
+        by_cases hc : col + 1 + colAdd body > 2048 <;> simp [hc]
+
+theorem longReps_lf (line col : Nat) (r : Str) (log : List Report) :
+    (longReps (line + 1) 0 r).reverse ++ (if col > 2048 then ⟨CIF_OVERLENGTH_LINE, line, col⟩ :: log else log)
+      = (longReps line col (10 :: r)).reverse ++ log := by
+  by_cases hc : col > 2048 <;> simp [longReps, hc]
+
+/-- a text field with lines of any length: the token is unaffected, every over-long line of the body (the last one included) is
+    reported once -/
+theorem scanText_accept (dia : Dialect) (ctx : Str) :
+    ∀ (s : Str) (pend : Option CU) (acc : Str) (line col sol : Nat) (log : List Report),
+      okUnits dia pend s = true → pendOk dia pend acc → textBody (decide (sol ≠ 0)) s = true → sol % 4 ≠ 2 →
+      acc.head? ≠ some 13 →
+      scanText dia (s ++ 10 :: 59 :: ctx) line col pend.isSome acc sol acceptAll log
+        = .ok ⟨s.reverse ++ acc, ⟨ctx, (posAfter line col s).1 + 1, 1⟩⟩ ((longReps line col (s ++ [10])).reverse ++ log) := by
+  have hlf : allowedBmp dia 10 = true := by cases dia <;> decide
+  have hsc : allowedBmp dia 59 = true := by cases dia <;> decide
+  have hlfc : classOf dia 10 = .eol := by cases dia <;> decide
+  have hscc : classOf dia 59 = .semi := by cases dia <;> decide
+  intro s
+  induction s with
+  | nil =>
+    intro pend acc line col sol log hok hp _ hsol hacc
+    cases pend with
+    | some l => simp [okUnits] at hok
+    | none =>
+      simp only [List.nil_append, scanText, Option.isSome_none, bind_eq, pure_eq]
+      rw [L.bind_ok (scanUChar_bmp dia 10 hlf line col _ acceptAll log)]
+      have h1 : ¬ (Cls.eol = Cls.semi) := by decide
+      simp only [fixAcc_false, hlfc, h1, if_false, if_true, Nat.add_sub_cancel]
+      rw [L.bind_ok (handleEol_lf_accept line col sol hsol log)]
+      rw [L.bind_ok (scanUChar_bmp dia 59 hsc (line + 1) 0 _ acceptAll _)]
+      have h2 : (sol * 4 + 1) % 16 ≠ 0 := by omega
+      simp only [fixAcc_false, hscc, if_true, h2, ne_eq, not_false_eq_true]
+      have h13 : ¬ (acc[0]?.getD 0 = 13) := by
+        cases acc with
+        | nil => simp
+        | cons a t => simpa using hacc
+      by_cases hc : col > 2048 <;> simp [h13, posAfter, longReps, hc]
+  | cons c s ih =>
+    intro pend acc line col sol log hok hp hbody hsol hacc
+    obtain ⟨hstep, hok', hp', hf, hch⟩ := ok_step dia pend c s acc hok hp line col acceptAll log
+    have hc13 : c ≠ 13 := by
+      rcases hch with h | h
+      · intro e; subst e; cases dia <;> simp [allowedBmp] at h
+      · omega_cu
+    simp only [List.cons_append, scanText, bind_eq, pure_eq]
+    rw [L.bind_ok hstep]
+    simp only [fixAcc_false]
+    simp only [textBody, Bool.and_eq_true, Bool.not_eq_true', Bool.and_eq_false_iff, decide_eq_false_iff_not, ne_eq,
+      Decidable.not_not, beq_eq_false_iff_ne] at hbody
+    have hacc' : (c :: acc).head? ≠ some 13 := by simp [hc13]
+    by_cases h59 : c = 59
+    · subst h59
+      have hsol0 : sol = 0 := by
+        rcases hbody.1 with h | h
+        · exact h
+        · exact absurd rfl h
+      subst hsol0
+      have hb : textBody (decide ((0 : Nat) ≠ 0)) s = true := by simpa [isEol] using hbody.2
+      have := ih (nextPend 59) (59 :: acc) line (col + (if isTrailU 59 then 0 else 1)) 0 log hok' hp' hb hsol hacc'
+      rw [isSome_nextPend] at this
+      simp only [hscc, if_true, ne_eq, not_true_eq_false, if_false]
+      rw [this]
+      simp [posAfter, longReps]
+    · have hnsemi : ¬ classOf dia c = .semi := by rw [hf.semi]; exact h59
+      simp only [hnsemi, if_false]
+      by_cases h10 : c = 10
+      · subst h10
+        have ht : isTrailU 10 = false := by decide
+        have hl : isLeadU 10 = false := by decide
+        simp only [hlfc, if_true, ht, Bool.false_eq_true, if_false, Nat.add_sub_cancel]
+        rw [L.bind_ok (handleEol_lf_accept line col sol hsol log)]
+        have hb : textBody (decide ((sol * 4 + 1) % 16 ≠ 0)) s = true := by
+          have : (sol * 4 + 1) % 16 ≠ 0 := by omega
+          simpa [isEol, this] using hbody.2
+        have := ih none (10 :: acc) (line + 1) 0 ((sol * 4 + 1) % 16) (if col > 2048 then ⟨CIF_OVERLENGTH_LINE, line, col⟩ :: log else log)
+          (by simpa [nextPend, hl] using hok') trivial hb (by omega) hacc'
+        simp only [Option.isSome_none] at this
+        simp only [hl]
+        rw [this, longReps_lf]
+        simp [posAfter]
+      · have hne : ¬ classOf dia c = .eol := by rw [hf.eol]; exact h10
+        have hb : textBody (decide ((0 : Nat) ≠ 0)) s = true := by
+          have : isEol c = false := by simp [isEol, h10]
+          simpa [this] using hbody.2
+        have := ih (nextPend c) (c :: acc) line (col + (if isTrailU c then 0 else 1)) 0 log hok' hp' hb (by omega) hacc'
+        rw [isSome_nextPend] at this
+        simp only [hne, if_false]
+        rw [this]
+        simp [posAfter, longReps, h10]
+
+/-- a triple-quoted string with lines of any length -/
+theorem scanTriple_accept (q : Nat) (hq : q = 34 ∨ q = 39) (ctx : Str) :
+    ∀ (s : Str) (pend : Option CU) (acc : Str) (line col cnt sol : Nat) (log : List Report),
+      okUnits .cif2 pend s = true → pendOk .cif2 pend acc → tripleBody q cnt s = true → sol % 4 ≠ 2 →
+      scanTriple .cif2 q (s ++ q :: q :: q :: ctx) line col pend.isSome acc cnt sol acceptAll log
+        = .ok ⟨s.reverse ++ acc, ⟨ctx, (posAfter line col s).1, (posAfter line col s).2 + 3⟩⟩
+            ((longReps line col s).reverse ++ log) := by
+  intro s
+  induction s with
+  | nil =>
+    intro pend acc line col cnt sol log hok hp hbody _
+    cases pend with
+    | some l => simp [okUnits] at hok
+    | none =>
+      have hcnt : cnt = 0 := by simpa [tripleBody] using hbody
+      subst hcnt
+      simp only [List.nil_append, Option.isSome_none]
+      rw [scanTriple_delim_step q hq, if_neg (by omega), scanTriple_delim_step q hq, if_neg (by omega),
+        scanTriple_delim_step q hq, if_pos (by omega)]
+      simp [posAfter, longReps]
+  | cons c s ih =>
+    intro pend acc line col cnt sol log hok hp hbody hsol
+    obtain ⟨hstep, hok', hp', hf, _⟩ := ok_step .cif2 pend c s acc hok hp line col acceptAll log
+    simp only [List.cons_append, scanTriple, bind_eq, pure_eq]
+    rw [L.bind_ok hstep]
+    simp only [fixAcc_false]
+    by_cases hcq : c = q
+    · subst hcq
+      have hc10 : ¬ c = 10 := by rcases hq with h | h <;> omega_cu
+      simp only [tripleBody, if_true, Bool.and_eq_true, decide_eq_true_eq] at hbody
+      have hge : ¬ cnt + 1 ≥ 3 := by omega
+      have := ih (nextPend c) (c :: acc) line (col + (if isTrailU c then 0 else 1)) (cnt + 1) sol log hok' hp' hbody.2 hsol
+      rw [isSome_nextPend] at this
+      simp only [if_true, hge, if_false]
+      rw [this]
+      simp [posAfter, longReps, hc10]
+    · simp only [tripleBody, hcq, if_false] at hbody
+      simp only [hcq, if_false]
+      by_cases h10 : c = 10
+      · subst h10
+        have heol : classOf .cif2 10 = .eol := by decide
+        have ht : isTrailU 10 = false := by decide
+        simp only [heol, if_true, ht, Bool.false_eq_true, if_false, Nat.add_sub_cancel]
+        rw [L.bind_ok (handleEol_lf_accept line col sol hsol log)]
+        have hl : isLeadU 10 = false := by decide
+        have := ih none (10 :: acc) (line + 1) 0 0 ((sol * 4 + 1) % 16) (if col > 2048 then ⟨CIF_OVERLENGTH_LINE, line, col⟩ :: log else log)
+          (by simpa [nextPend, hl] using hok') trivial hbody (by omega)
+        simp only [Option.isSome_none] at this
+        simp only [hl]
+        rw [this, longReps_lf]
+        simp [posAfter]
+      · have hne : ¬ classOf .cif2 c = .eol := by rw [hf.eol]; exact h10
+        have := ih (nextPend c) (c :: acc) line (col + (if isTrailU c then 0 else 1)) 0 0 log hok' hp' hbody (by omega)
+        rw [isSome_nextPend] at this
+        simp only [hne, if_false]
+        rw [this]
+        simp [posAfter, longReps, h10]
+
+/-- text field, any line lengths (token level) -/
+theorem text_accept_step (dia : Dialect) (s ctx : Str) (line : Nat) (log : List Report)
+    (hok : textOk dia s = true) (hctx : followOk dia ctx = true) :
+    stepTok dia true 59 (s ++ 10 :: 59 :: ctx) line 0 acceptAll log
+      = .ok (.tok ⟨.tvalue, s, (posAfter line 1 s).1 + 1, 1⟩ ⟨ctx, (posAfter line 1 s).1 + 1, 1⟩)
+          ((longReps line 1 (s ++ [10])).reverse ++ log) := by
+  simp only [textOk, Bool.and_eq_true] at hok
+  have hscan := scanText_accept dia ctx s none [] line 1 0 log hok.1 trivial (by simpa using hok.2) (by decide) (by simp)
+  simp only [Option.isSome_none] at hscan
+  rw [text_dispatch, L.bind_ok hscan]
+  have hcol : ∀ d r, ctx = d :: r → ¬ d = colon := by
+    intro d r h
+    subst h
+    simp only [followOk, isWs, isBlank, isEol, Bool.or_eq_true, beq_iff_eq, Bool.and_eq_true] at hctx
+    simp only [colon]; omega_cu
+  cases dia with
+  | cif1 => simp [mkTok]
+  | cif2 =>
+    cases ctx with
+    | nil => simp [keyPeek, mkTok]
+    | cons d r => simp [keyPeek, mkTok, hcol d r rfl]
+
+/-- triple-quoted string, any line lengths (token level) -/
+theorem triple_accept_step (q : Nat) (hq : q = 34 ∨ q = 39) (s ctx : Str) (line col : Nat) (log : List Report)
+    (hok : Spec.Lexical.tripleOk .cif2 q s = true) (hctx : followOk .cif2 ctx = true) :
+    stepTok .cif2 true q (q :: q :: (s ++ q :: q :: q :: ctx)) line col acceptAll log
+      = .ok (.tok ⟨.qvalue, s, (posAfter line (col + 3) s).1, (posAfter line (col + 3) s).2 + 3⟩
+                  ⟨ctx, (posAfter line (col + 3) s).1, (posAfter line (col + 3) s).2 + 3⟩)
+          ((longReps line (col + 3) s).reverse ++ log) := by
+  simp only [Spec.Lexical.tripleOk, Bool.and_eq_true] at hok
+  obtain ⟨⟨_, h1⟩, h2⟩ := hok
+  have hscan := scanTriple_accept q hq ctx s none [] line (col + 1 + 2) 0 0 log h1 trivial h2 (by decide)
+  simp only [Option.isSome_none] at hscan
+  have hscan' := (scanDelim_triple_open q hq (s ++ q :: q :: q :: ctx) line (col + 1) acceptAll log).trans hscan
+  rw [quote_dispatch .cif2 q hq, L.bind_ok hscan']
+  cases ctx with
+  | nil => simp [keyPeek, mkTok]
+  | cons d r =>
+    have : ¬ d = colon := by
+      simp only [followOk, isWs, isBlank, isEol, Bool.or_eq_true, beq_iff_eq, Bool.and_eq_true] at hctx
+      simp only [colon]; omega_cu
+    simp [keyPeek, mkTok, this]
+
 end CifModel.Model.Lexer
